@@ -82,6 +82,9 @@ pub enum Fault {
 struct Sched {
     /// when true every call parks until released
     enabled: bool,
+    /// when true every call yields once (returns Pending and wakes itself) before executing:
+    /// makes every backend call a suspension point for the DropPoller
+    yield_once: bool,
     /// parked calls: ticket -> (proc, op, path, waker, released)
     parked: BTreeMap<u64, Parked>,
     next_ticket: u64,
@@ -165,6 +168,10 @@ impl TraceStore {
 
     /// Admission: power state, fault plan, scheduling. Returns the fault to apply.
     async fn admit(&self, op: Op, path: &Path) -> Result<(Option<Fault>, u64)> {
+        let yield_once = self.state.lock().unwrap().sched.yield_once;
+        if yield_once {
+            YieldOnce(false).await;
+        }
         // park first (a parked call has not happened yet)
         let ticket = {
             let mut st = self.state.lock().unwrap();
@@ -258,6 +265,20 @@ impl TraceStore {
     ) {
         let mut st = self.state.lock().unwrap();
         Self::push(&mut st, op, path, path2, mode, res, payload, mutation);
+    }
+}
+
+struct YieldOnce(bool);
+impl Future for YieldOnce {
+    type Output = ();
+    fn poll(mut self: Pin<&mut Self>, cx: &mut Context<'_>) -> Poll<()> {
+        if self.0 {
+            Poll::Ready(())
+        } else {
+            self.0 = true;
+            cx.waker().wake_by_ref();
+            Poll::Pending
+        }
     }
 }
 
@@ -364,6 +385,10 @@ impl TraceHandle {
     }
     pub fn note(&self, text: String) {
         self.state.lock().unwrap().log_only.push_back(text);
+    }
+
+    pub fn yield_once(&self, on: bool) {
+        self.state.lock().unwrap().sched.yield_once = on;
     }
 
     // ---- scheduling -------------------------------------------------------
